@@ -182,8 +182,8 @@ def ctor_cases():
     Z, O, T = CDSFrame.ZERO, CDSFrame.ONE, CDSFrame.TWO
     cases = []
 
-    def add(name, fn, well_typed=True):
-        cases.append((name, fn, well_typed))
+    def add(name, fn, well_typed=True, must_refuse=False):
+        cases.append((name, fn, well_typed, must_refuse))
 
     chrom = lambda: lib.chrom_parent(g)
     seqp = lambda: lib.seq_parent(g)
@@ -364,12 +364,46 @@ def ctor_cases():
         add(f"SYS Parent(strand mismatch, location {lname})", lambda lf=lf: Parent(strand=Mi, location=lf(P)))
         add(f"SYS Parent(id mismatch, location {lname})", lambda lf=lf: Parent(id="a", location=lf(P, "b")))
         add(f"SYS Parent(type mismatch, location {lname})", lambda lf=lf: Parent(sequence_type="x", location=lf(P, Parent(id="b", sequence_type="y"))))
+    # parent sequences of length 0, 1 and 4 (an empty slice used as a parent is a valid Sequence whose truth value is False):
+    # every way of placing a location beyond them
+    for L in (0, 1, 4):
+        shortp = lambda L=L: Parent(sequence=Sequence(g[:L], Alphabet.NT_STRICT))
+        for st in (P, Mi, U):
+            add(f"SYS SingleInterval(0,{L + 1},{st.name}) on a {L} bp parent", lambda L=L, st=st, sp=shortp: SingleInterval(0, L + 1, st, sp()))
+            add(f"SYS SingleInterval({L},{L + 2},{st.name}) on a {L} bp parent", lambda L=L, st=st, sp=shortp: SingleInterval(L, L + 2, st, sp()))
+            add(f"SYS Parent(location 0-{L + 1} {st.name}, sequence of {L} bp)", lambda L=L, st=st: Parent(location=SingleInterval(0, L + 1, st), sequence=Sequence(g[:L], Alphabet.NT_STRICT)))
+            add(f"SYS CompoundInterval beyond a {L} bp parent,{st.name}", lambda L=L, st=st, sp=shortp: CompoundInterval([0, L + 1], [0, L + 3], st, sp()))
+            add(f"SYS reset_parent to a {L} bp parent,{st.name}", lambda L=L, st=st, sp=shortp: SingleInterval(0, L + 1, st).reset_parent(sp()))
+            add(f"SYS extend_absolute beyond a {L} bp parent,{st.name}", lambda L=L, st=st, sp=shortp: SingleInterval(0, L, st, sp()).extend_absolute(0, 2))
+            add(f"SYS shift_position beyond a {L} bp parent,{st.name}", lambda L=L, st=st, sp=shortp: SingleInterval(0, L, st, sp()).shift_position(2))
+            add(f"SYS FeatureInterval beyond a {L} bp chromosome,{st.name}", lambda L=L, st=st: FeatureInterval([0], [L + 1], st, parent_or_seq_chunk_parent=lib.chrom_parent(g[:L])))
+    # mismatched parents: an interval built on one chromosome is moved to a parent that names another chromosome, or the
+    # same name with other bases / another length.  The statement lists mismatched parents among the inconsistent data
+    # that must be refused (these four are; a chunk's chromosome carries no sequence, so chunk targets can only be told apart by id)
+    g2 = g[::-1]
+    movers = {
+        "FeatureInterval": lambda: FeatureInterval([1, 7], [4, 10], P, parent_or_seq_chunk_parent=chrom()),
+        "TranscriptInterval": lambda: TranscriptInterval([1, 7], [4, 10], Mi, cds_starts=[2], cds_ends=[4], cds_frames=[Z], parent_or_seq_chunk_parent=chrom()),
+        "CDSInterval": lambda: CDSInterval([1, 7], [4, 10], P, [Z, Z], parent_or_seq_chunk_parent=chrom()),
+        "VariantInterval": lambda: VariantInterval(2, 3, "A", "SNV", parent_or_seq_chunk_parent=chrom()),
+        "GeneInterval": lambda: GeneInterval([TranscriptInterval([1, 7], [4, 10], P, parent_or_seq_chunk_parent=chrom())], parent_or_seq_chunk_parent=chrom()),
+        "FeatureIntervalCollection": lambda: FeatureIntervalCollection([FeatureInterval([1, 7], [4, 10], P, parent_or_seq_chunk_parent=chrom())], parent_or_seq_chunk_parent=chrom()),
+    }
+    targets = {
+        "same id, other bases": lambda: lib.chrom_parent(g2),
+        "same id, shorter sequence": lambda: lib.chrom_parent(g[:12]),
+        "other id": lambda: lib.chrom_parent(g, "chrX"),
+        "chunk of another id": lambda: lib.chunk_parent(g, 0, 12, "chrX"),
+    }
+    for mn, mf in movers.items():
+        for tn, tf in targets.items():
+            add(f"SYS {mn}.liftover_to_parent_or_seq_chunk_parent({tn})", lambda mf=mf, tf=tf: mf().liftover_to_parent_or_seq_chunk_parent(tf()), must_refuse=True)
     return cases
 
 
 def run_ctor(res, shard_i):
     cases = ctor_cases()
-    for idx, (name, fn, well_typed) in enumerate(cases):
+    for idx, (name, fn, well_typed, must_refuse) in enumerate(cases):
         if idx % 8 != shard_i:
             continue
         bootstrap.clear_global_caches()
@@ -391,6 +425,8 @@ def run_ctor(res, shard_i):
                 v = list(v)
             probs = value_problems(v)
             res.note("ctor", "accepted")
+            if must_refuse:
+                probs = probs + ["accepted: " + repr(v)[:80]]
             if probs:
                 res.deviation(name, case, probs, "documented exception or well-formed object", sig=f"ctor-illformed:{name.split('(')[0]}")
     res.sample({"constructor_case": cases[0][0]})
